@@ -82,7 +82,7 @@ def r2(ctx: Ctx) -> None:
     from framelint.peval import paths
     from framelint.canon import single_defs, deref
     cd = deref(c, single_defs(c))
-    ps = paths(cd)
+    ps = paths(cd, split_values=True)       # a result local assigned in every arm and returned once is a conditional value
     ctx.site(f.where, "far-apart discs: d > r1 + r2 -> 0", paths=len(ps))
     if not any(l == (far,) and o == k_num(0) for l, o in ps):
         ctx.report(f.where, "far-case", "the overlap of discs with d > r1 + r2 is not decided first and returned as 0", lineno=f.node.lineno)
